@@ -734,57 +734,100 @@ def binding(ctx):
     e = expand(rs, rs.exits()[0]['expr']) if len(rs.exits()) == 1 else None
     ok = False
     det = ''
+    def stage1_ok(first):
+        # the hit of stage 1 is the result of the find itself (possibly mapped to Type::Raw), nothing filters it afterwards
+        f0 = strip(first)
+        while f0[0] == 'call' and f0[2] and re.search(r'Option::<T>::(map|as_ref|cloned|copied)$', f0[1]):
+            f0 = strip(f0[2][0])
+        if not (f0[0] == 'call' and re.search(r'::find$', f0[3] if len(f0) > 3 else f0[1])):
+            return False
+        fnd = [f0]
+        it = fnd[0][2][0]
+        chain = [c_[3] for c_ in calls_in(it)]
+        revs = [c_ for c_ in chain if c_.endswith('Iterator::rev')]
+        part = find_calls(it, 'Iterator::partition')
+        ok1 = len(revs) == 1 and bool(part) and any(isinstance(x, tuple) and x[0] == 'field' and x[2] == '0' for x in walk(it)) and \
+            not any(re.search(r'Iterator::(skip|take|filter|step_by|chain)$', c_) for c_ in chain)
+        if part:
+            pc = part[0][2][1]
+            okp = pc[0] == 'closure' and pc[1] in P.fns and any(is_membership(P, x['expr']) for x in P.fns[pc[1]].exits())
+            src = strip(part[0][2][0])
+            okp = okp and is_call(src, 'slice::<impl [T]>::iter') and strip(src[2][0])[0] == 'arg'
+            ok1 = ok1 and okp
+        pr = fnd[0][2][1]
+        okn = False
+        if pr[0] == 'closure' and pr[1] in P.fns:
+            ex = P.fns[pr[1]].exits()
+            okn = len(ex) == 1 and find_calls(ex[0]['expr'], 'ItemPath::last') and any(x == ('upvar', 0) for x in walk(ex[0]['expr']))
+        return bool(ok1 and okn)
+
+    def stage2_ok(ce, caps):
+        """root::name first, then <module>::name for the scope modules in order; first registered path wins.  `caps` = the captures
+        of the or_else closure (None when the search is written in the function itself)"""
+        ch = find_calls(ce, 'Iterator::chain')
+        if len(ch) != 1:
+            return False
+        a, b = ch[0][2][0], ch[0][2][1]
+        root_first = is_call(a, 'iter::once') and bool(find_calls(a, 'ItemPath::empty'))
+        noadapt = not any(re.search(r'Iterator::(rev|skip|take|filter|step_by|map_while|scan|take_while|skip_while|fuse|cycle)$', c_[3]) for c_ in calls_in(b))
+        if caps is not None:
+            # the captured module list is partition(..).1
+            mods = any(isinstance(x, tuple) and x[0] == 'upvar' for x in walk(b)) and noadapt and \
+                any(isinstance(x, tuple) and x[0] == 'field' and x[2] == '1' and find_calls(x, 'Iterator::partition') for c_ in caps for x in walk(c_))
+        else:
+            mods = noadapt and any(isinstance(x, tuple) and x[0] == 'field' and x[2] == '1' and find_calls(x, 'Iterator::partition') for x in walk(b))
+        fnd2 = find_calls(ce, 'Iterator::find')
+        jn = False
+        for x in walk(ce):
+            if isinstance(x, tuple) and x[0] == 'closure' and x[1] in P.fns:
+                for y in P.fns[x[1]].exits():
+                    if is_call(y['expr'], 'ItemPath::join'):
+                        jn = True
+        ck = False
+        if fnd2:
+            pr = fnd2[0][2][1]
+            ck = pr[0] == 'closure' and pr[1] in P.fns and any(is_membership(P, y['expr']) for y in P.fns[pr[1]].exits())
+        return bool(root_first and mods and jn and ck and not any(c_[3].endswith('Iterator::rev') for c_ in calls_in(ce)))
+
     if e and is_call(e, 'Option::<T>::or_else'):
         first, fb = e[2][0], e[2][1]
         det = show(first)[:200]
-        fnd = find_calls(first, '::find')
-        ok1 = False
-        if fnd:
-            it = fnd[0][2][0]
-            chain = [c_[3] for c_ in calls_in(it)]
-            revs = [c_ for c_ in chain if c_.endswith('Iterator::rev')]
-            part = find_calls(it, 'Iterator::partition')
-            ok1 = len(revs) == 1 and bool(part) and any(isinstance(x, tuple) and x[0] == 'field' and x[2] == '0' for x in walk(it)) and \
-                not any(re.search(r'Iterator::(skip|take|filter|step_by|chain)$', c_) for c_ in chain)
-            if part:
-                pc = part[0][2][1]
-                okp = pc[0] == 'closure' and pc[1] in P.fns and any(is_membership(P, x['expr']) for x in P.fns[pc[1]].exits())
-                src = strip(part[0][2][0])
-                okp = okp and is_call(src, 'slice::<impl [T]>::iter') and strip(src[2][0])[0] == 'arg'
-                ok1 = ok1 and okp
-            pr = fnd[0][2][1]
-            okn = False
-            if pr[0] == 'closure' and pr[1] in P.fns:
-                ex = P.fns[pr[1]].exits()
-                okn = len(ex) == 1 and find_calls(ex[0]['expr'], 'ItemPath::last') and any(x == ('upvar', 0) for x in walk(ex[0]['expr']))
-            ok1 = ok1 and bool(okn)
+        ok1 = stage1_ok(first)
         ok2 = False
         if fb[0] == 'closure' and fb[1] in P.fns:
             cf = P.fns[fb[1]]
             ce = expand(cf, cf.exits()[0]['expr']) if len(cf.exits()) == 1 else None
             if ce:
                 det += ' ;; ' + show(ce)[:300]
-                ch = find_calls(ce, 'Iterator::chain')
-                if len(ch) == 1:
-                    a, b = ch[0][2][0], ch[0][2][1]
-                    root_first = is_call(a, 'iter::once') and bool(find_calls(a, 'ItemPath::empty'))
-                    mods = any(isinstance(x, tuple) and x[0] == 'upvar' for x in walk(b)) and not any(re.search(r'Iterator::(rev|skip|take|filter|step_by|map_while|scan|take_while|skip_while|fuse|cycle)$', c_[3]) for c_ in calls_in(b))
-                    # the captured module list is partition(..).1
-                    cap = fb[2]
-                    mods = mods and any(isinstance(x, tuple) and x[0] == 'field' and x[2] == '1' and find_calls(x, 'Iterator::partition') for c_ in cap for x in walk(c_))
-                    fnd2 = find_calls(ce, 'Iterator::find')
-                    jn = False
-                    for x in walk(ce):
-                        if isinstance(x, tuple) and x[0] == 'closure' and x[1] in P.fns:
-                            for y in P.fns[x[1]].exits():
-                                if is_call(y['expr'], 'ItemPath::join'):
-                                    jn = True
-                    ck = False
-                    if fnd2:
-                        pr = fnd2[0][2][1]
-                        ck = pr[0] == 'closure' and pr[1] in P.fns and any(is_membership(P, y['expr']) for y in P.fns[pr[1]].exits())
-                    ok2 = root_first and mods and jn and ck and not any(c_[3].endswith('Iterator::rev') for c_ in calls_in(ce))
+                ok2 = stage2_ok(ce, fb[2])
         ok = ok1 and ok2
+    elif e is None and len(rs.exits()) == 2 and not rs.loops():
+        # the same two stages with an early return: `if let Some(p) = <stage 1> { return Some(Raw(p)) }  <stage 2>`
+        xs = rs.exits()
+        vals = [(x, strip(expand(rs, x['expr']))) for x in xs]
+        some = [(x, v) for x, v in vals if v[0] == 'agg' and v[1].endswith('Option::Some')]
+        rest = [(x, v) for x, v in vals if not (v[0] == 'agg' and v[1].endswith('Option::Some'))]
+        if len(some) == 1 and len(rest) == 1:
+            x1, v1 = some[0]
+            x2, v2 = rest[0]
+            inner = strip(v1[2][0][1])
+            hit = None
+            if inner[0] == 'agg' and inner[1].endswith('Type::Raw') and inner[2]:
+                pth = strip(inner[2][0][1])
+                while pth[0] == 'call' and pth[2] and re.search(r'(::clone|::to_owned|::deref)$', pth[1]):
+                    pth = strip(pth[2][0])
+                if pth[0] == 'payload' and pth[2] == 'Some':
+                    hit = strip(pth[1])
+            if hit is not None:
+                det = show(hit)[:200] + ' ;; ' + show(v2)[:300]
+                # the early return sits on the Some edge of the test of stage 1, stage 2 on its None edge
+                sw_ = [s_ for s_ in rs.switches() if s_['cond'][0] == 'discr' and strip(expand(rs, s_['cond'][1])) == hit]
+                ordered = False
+                for s_ in sw_:
+                    se = dict((lab, tgt) for lab, tgt in s_['edges'])
+                    if 'Some' in se and 'None' in se and rs.dominates(se['Some'], x1['block']) and rs.dominates(se['None'], x2['block']):
+                        ordered = True
+                ok = ordered and stage1_ok(hit) and stage2_ok(v2, None)
     if (e is None or not is_call(e, 'Option::<T>::or_else')) and len(rs.loops()) == 2:
         # the same search written as two `for` loops: first hit of stage 1, else first hit of stage 2, else None.  A hit is
         # delivered by `return Some(..)` or by `found = Some(..); break` with `found` returned after the loop; the restriction to
